@@ -306,6 +306,13 @@ func Covariance(x, y, weights []float64) float64 {
 // of x and y already specified. See the documentation of Covariance for more
 // information.
 func covarianceMeans(x, y, weights []float64, xu, yu float64) float64 {
+	unnormalisedCovariance, sumWeights := unnormalisedCovarianceSumWeights(x, y, weights, xu, yu)
+	return unnormalisedCovariance / (sumWeights - 1)
+}
+
+// unnormalisedCovarianceSumWeights returns the weighted sum of the products of
+// the deviations of x and y from the given means, and the sum of the weights.
+func unnormalisedCovarianceSumWeights(x, y, weights []float64, xu, yu float64) (unnormalisedCovariance, sumWeights float64) {
 	var (
 		ss            float64
 		xcompensation float64
@@ -323,10 +330,8 @@ func covarianceMeans(x, y, weights []float64, xu, yu float64) float64 {
 		// xcompensation and ycompensation are from Chan, et. al.
 		// referenced in the MeanVariance function. They are analogous
 		// to the second term in (1.7) in that paper.
-		return (ss - xcompensation*ycompensation/float64(len(x))) / float64(len(x)-1)
+		return ss - xcompensation*ycompensation/float64(len(x)), float64(len(x))
 	}
-
-	var sumWeights float64
 
 	for i, xv := range x {
 		w := weights[i]
@@ -342,7 +347,7 @@ func covarianceMeans(x, y, weights []float64, xu, yu float64) float64 {
 	// referenced in the MeanVariance function. They are analogous
 	// to the second term in (1.7) in that paper, except they use
 	// the sumWeights instead of the sample count.
-	return (ss - xcompensation*ycompensation/sumWeights) / (sumWeights - 1)
+	return ss - xcompensation*ycompensation/sumWeights, sumWeights
 }
 
 // CrossEntropy computes the cross-entropy between the two distributions specified
@@ -797,10 +802,13 @@ func LinearRegression(x, y, weights []float64, origin bool) (alpha, beta float64
 		return 0, beta
 	}
 
-	xu, xv := MeanVariance(x, weights)
+	// The slope is the ratio of the covariance of x and y to the variance of x.
+	// Their common normalisation, sum_i w[i] - 1, cancels and is not applied
+	// since it is zero for weights that sum to one.
+	xu, sxx, _ := meanUnnormalisedVarianceSumWeights(x, weights)
 	yu := Mean(y, weights)
-	cov := covarianceMeans(x, y, weights, xu, yu)
-	beta = cov / xv
+	sxy, _ := unnormalisedCovarianceSumWeights(x, y, weights, xu, yu)
+	beta = sxy / sxx
 	alpha = yu - beta*xu
 	return alpha, beta
 }
